@@ -60,6 +60,8 @@ type harness struct {
 	model  *hx.Model
 	maxRec int
 
+	seen map[string]int // violations per kind:class (shrinking budget)
+
 	// watchdog: the case the real scanner/parser is working on right now
 	mu      sync.Mutex
 	current *Case
@@ -379,11 +381,24 @@ func (h *harness) record(g *genCase, p *prepared, f *failure) {
 	if f == nil {
 		return
 	}
-	// shrink while it fails the same way
+	// shrink while it fails the same way (bounded: 15 s per violation, and only the first three
+	// violations of a class are shrunk and kept at all — the rest is counted)
+	if h.seen == nil {
+		h.seen = map[string]int{}
+	}
+	h.seen[f.kind+":"+f.class]++
+	if h.seen[f.kind+":"+f.class] > 3 {
+		run.Count("violation-not-shrunk:" + f.kind + ":" + f.class)
+		return
+	}
 	cur, curCase, curF := g, p.c, f
-	for changed, rounds := true, 0; changed && rounds < 200; rounds++ {
+	deadline := time.Now().Add(15 * time.Second)
+	for changed, rounds := true, 0; changed && rounds < 200 && time.Now().Before(deadline); rounds++ {
 		changed = false
 		for _, cand := range cur.shrinks() {
+			if time.Now().After(deadline) {
+				break
+			}
 			c := cand.build()
 			if _, f2 := h.eval(c); f2 != nil && f2.kind == curF.kind && f2.class == curF.class {
 				cur, curCase, curF, changed = cand, c, f2, true
